@@ -10,6 +10,11 @@ ALL = [f"C{i:02d}" for i in range(1, 20)]
 
 # id -> (engine, category, level text, level note, technique, design_ref)
 CHECKS = {
+ "C17": ("L2 network simulation", "exploration",
+   "The real client is brought into one of 23 states (idle, k-th headers / cfheaders message of the sync, parked at each of the 7 block-manager pause points incl. inside a real reorganisation, GetBlock/GetCFilter pending at silent peers, a query storm, rescan in catch-up / retry / current, a running UTXO batch, broadcast and rebroadcast in flight, blocked subscription readers, all peers unresponsive / never reading / gone) and Stop is called at a seed-chosen instant; Stop must return, every in-flight public call must return with an error or a correct result, calls made after Stop must fail promptly, and the data directory must reopen with a valid block chain, filter tip <= block tip, ground-truth filter headers, and a second client on it must sync.",
+   "'Never returns' verdicts need identical goroutine dumps over 36 s with no network event (else inconclusive); Stop latency is evidence only.",
+   "runtime monitoring: Stop/blocked-caller return oracle with goroutine-dump deadlock argument + reopen oracle, over pause-point-steered states", "5/C17"),
+
  "C05": ("L2 network simulation", "exploration",
    "The real client syncs a generated chain of 1100-2600 blocks from peers that are honest for headers/cfheaders, then GetCFilter is called (targets at block 1, tip, around 1000/2000 boundaries; no/forward/reverse/capped batching; sequential, repeated, concurrent, after a restart on the same directory; with and without PersistToDisk) while each peer rewrites its getcfilters answers with one of 24 mutation kinds (reorder, duplicate, omit, silence, wrong type, unsolicited extras, and corruption at target/first/last/middle by bit flip, truncation, garbage, another block's valid filter, right filter under a wrong hash ...); every returned filter, every FilterCache entry after every round and every FilterDB entry after Stop must hash with the committed previous filter header to the committed header of its block and equal the ground-truth bytes; a success without any verifiable delivery on the wire is a violation.",
    "Failure despite a verifiable delivery is only counted (the statement promises safety, not success). Forced worker timeouts are bounded with the public NumRetries option.",
@@ -116,7 +121,7 @@ def main():
         "engines": [
             {"name": "L1 block-manager driver", "path": "harness/internal/l1", "serves_properties": ["C01", "C02", "C03", "C19"],
              "kind_free_text": "real blockManager + real headerfs stores, scripted network, synchronous message-at-a-time driving, store read-back after every step"},
-            {"name": "L2 network simulation", "path": "harness/internal/l2", "serves_properties": ["C03", "C04", "C05", "C06", "C18"],
+            {"name": "L2 network simulation", "path": "harness/internal/l2", "serves_properties": ["C03", "C04", "C05", "C06", "C17", "C18"],
              "kind_free_text": "the complete real ChainService through its public API against scripted wire peers reached through Config.Dialer; one child process per scenario"},
             {"name": "crash runner", "path": "harness/internal/c08", "serves_properties": ["C08"],
              "kind_free_text": "crash images at every File/DB boundary point and real SIGKILL of child processes, recovery oracle on reopen"},
